@@ -172,8 +172,8 @@ BOUNDARY = {"Fuzzy": {"rho": [0.0, 1.0], "alpha": [0.0], "beta": [0.0, 1.0]},
             "Hyper": {"rho": [0.0, 1.0], "alpha": [0.0], "beta": [0.0, 1.0], "r_hat": [0.0, -1.0, float("inf")]},
             "Ellip": {"rho": [0.0, 1.0], "alpha": [0.0, 1.0], "beta": [0.0, 1.0], "mu": [1.0, 0.0], "r_hat": [0.0, -1.0, float("inf")]},
             "Gauss": {"rho": [0.0, 1.0], "alpha": [0.0], "sigma_init": ["zero-entry", "negative-entry"]},
-            "Bayes": {"rho": [0.0], "cov_init": ["zeros", "singular", "negative-definite"]},
-            "Quad": {"rho": [0.0, 1.0], "s_init": [0.0, -1.0], "lr_b": [0.0, 1.0], "lr_w": [0.0, 1.0], "lr_s": [0.0, 1.0]},
+            "Bayes": {"rho": [0.0], "cov_init": ["zeros", "singular", "negative-definite", "non-symmetric-singular", "non-symmetric-negative-det"]},
+            "Quad": {"rho": [0.0, 1.0], "s_init": [0.0, -1.0, float("inf"), float("nan")], "lr_b": [0.0, 1.0], "lr_w": [0.0, 1.0], "lr_s": [0.0, 1.0]},
             "Topo": {"tau": [0, 1], "phi": [0, -1], "beta_lower": [-0.5, 0.0]},
             "DualVig": {"rho_lower_bound": [0.0, -0.1]}}
 # (magnitudes near the binary64 overflow / underflow thresholds are not tried: see the assumptions in the evidence)
@@ -206,7 +206,8 @@ def accepted_params_oracle(rng):
         if pname == "sigma_init":
             p[pname] = {"zero-entry": np.array([0.5, 0.0]), "negative-entry": np.array([0.5, -0.5])}[val]
         elif pname == "cov_init":
-            p[pname] = {"zeros": np.zeros((d, d)), "singular": np.ones((d, d)), "negative-definite": -0.05 * np.eye(d)}[val]
+            p[pname] = {"zeros": np.zeros((d, d)), "singular": np.ones((d, d)), "negative-definite": -0.05 * np.eye(d),
+                        "non-symmetric-singular": np.array([[1.0, 2.0], [0.5, 1.0]]), "non-symmetric-negative-det": np.array([[1.0, 5.0], [0.5, 1.0]])}[val]
         else:
             p[pname] = val
         # the standing assumptions of the quantifier
@@ -389,6 +390,14 @@ def main():
         if f and f["signature"] not in seen_b:
             seen_b.add(f["signature"])
             fails.append(f)
+    # termination of the generic search on arbitrary activation values (table kernel: ties, +-inf)
+    import c01
+    rng_t = C.make_rng(seed, "C04-table")
+    for _ in range(150 if tier == "quick" else 1500):
+        f = c01.table_kernel_oracle(rng_t)
+        if f:
+            fails.append(f)
+            break
     # defined-ness of kernel outputs vs the model (reuses the direct-call correspondence)
     calls, strs, summ = [], [], []
     tries = 0
